@@ -21,8 +21,9 @@ RULES = {
     "R4": "ownership: _observations/_observation_mask written only by Screen.__init__ and Screen.set_observed; one selector",
     "R5": "extract_screen_metadata: each plate increments exactly one counter chosen by is_observed; JSON wiring",
     "R6": "results of functions that may return None (empty observed/unobserved views, ...) are None-checked before any dereference",
+    "R7": "the screen file the commands pass along is written and read back without transformation (writer/reader table of Screen.save_h5 / load_h5)",
 }
-MIN = {"R1": 5, "R2": 3, "R3": 2, "R4": 3, "R5": 3, "R6": 1}
+MIN = {"R1": 5, "R2": 3, "R3": 2, "R4": 3, "R5": 3, "R6": 1, "R7": 16}
 TRUSTED = ["numpy boolean indexing / np.isin semantics", "python ast"]
 TECHNIQUE = "dominance of refusal guards on the CFG, relational normal form of the mask expression, who-may-write scan"
 LEVEL_TEXT = ("Atomicity is an invariant re-established by the constructor at every operation (each operation builds its "
@@ -460,7 +461,14 @@ def run(ctx):
     r5(ctx)
 
 
-RULE_FUNCS = [r1, r2, r3, r4, r5, r6]
+def r7(ctx):
+    """the reveal history runs through files: reveal_plate loads, reveals and saves.  Values and mask survive only if Screen.save_h5 /
+    load_h5 agree and transform nothing (C02.R1 run here) - e.g. observations written through nan_to_num would disarm the NaN refusal"""
+    from . import C02
+    ctx.borrow(C02.r1, "R7")
+
+
+RULE_FUNCS = [r1, r2, r3, r4, r5, r6, r7]
 
 
 def _rep(a, b):
